@@ -210,7 +210,17 @@ fn offender(kind: &'static str) -> BoxedStrategy<String> {
     let letters: Vec<char> = ascii.iter().copied().filter(|c| c.is_ascii_uppercase()).collect();
     let digits_ws: Vec<char> = vec!['0', '1', '7', ' ', '\t', '\n', '\r', '\0', '.', '*', '?', '_', '\\', '"', '\''];
     let digits_ws: Vec<char> = digits_ws.into_iter().filter(|c| !ok.contains(c)).collect();
+    // non-ASCII characters whose code point truncated to 8 (or 16) bits is a character of the alphabet
+    let aliases: Vec<char> = ok
+        .iter()
+        .flat_map(|c| {
+            let b = *c as u32;
+            [0x100 + b, 0x400 + b, 0x2200 + b, 0x1_0000 + b, 0x1_0400 + b, 0x1_F600 + b]
+        })
+        .filter_map(char::from_u32)
+        .collect();
     prop_oneof![
+        3 => select(aliases).prop_map(|c| c.to_string()),
         3 => select(lower).prop_map(|c| c.to_string()),
         3 => select(letters).prop_map(|c| c.to_string()),
         2 => select(digits_ws).prop_map(|c| c.to_string()),
@@ -336,12 +346,12 @@ pub fn gen_c16_neg(seed: u64, n: usize) -> (String, Vec<LitItem>) {
     let mut list: Vec<(String, String, bool, bool)> = vec![];
     // fixed: the classes named by the property
     let mut fixed: Vec<(&'static str, String)> = vec![];
-    for bad in ["N", "U", "X", "a", "c", "g", "t", "n", "0", " ", "\n", "é", "Ａ", "-", "R"] {
+    for bad in ["N", "U", "X", "a", "c", "g", "t", "n", "0", " ", "\n", "é", "Ａ", "-", "R", "\u{141}", "\u{10443}"] {
         fixed.push(("dna", bad.to_string()));
         fixed.push(("dna", format!("ACGT{bad}")));
         fixed.push(("dna", format!("{}{bad}ACGT", "ACGT".repeat(8))));
     }
-    for bad in ["U", "a", "n", "x", "1", " ", ".", "*", "é", "\u{0410}", "Z", "E", "J", "O"] {
+    for bad in ["U", "a", "n", "x", "1", " ", ".", "*", "é", "\u{0410}", "Z", "E", "J", "O", "\u{152}", "\u{22d}"] {
         fixed.push(("iupac", bad.to_string()));
         fixed.push(("iupac", format!("ACGTN{bad}")));
         fixed.push(("iupac", format!("{}{bad}RYSW", "ACGTRYSWKMBDHVN-".repeat(2))));
@@ -531,15 +541,37 @@ fn finish(id: usize, raw: (Vec<(u8, u8, Vec<(u8, u8)>, Option<u8>, u8)>, Option<
 
 fn render_enum(d: &EnumDecl) -> String {
     let mut s = String::new();
+    // attributes that are not the derive's own (doc comments, lints) may stand anywhere around them
+    if d.id % 3 == 1 {
+        s.push_str("/// A generated alphabet.\n");
+    }
     s.push_str("#[derive(Clone, Copy, Debug, PartialEq, Eq, Hash, Codec)]\n");
+    if d.id % 4 == 2 {
+        s.push_str("#[allow(dead_code)]\n");
+    }
     if let Some(b) = d.bits {
         let _ = writeln!(s, "#[bits({b})]");
     }
+    if d.id % 5 == 3 {
+        s.push_str("#[doc = \"widths and codes are generated\"]\n");
+    }
     s.push_str("#[repr(u8)]\n");
     let _ = writeln!(s, "pub enum {} {{", d.name);
-    for v in &d.variants {
-        if let Some(c) = v.display {
+    for (vi, v) in d.variants.iter().enumerate() {
+        let deco = (v.disc as usize + vi + d.id) % 7;
+        if deco == 1 {
+            let _ = writeln!(s, "    /// the symbol `{}`", v.ident);
+        }
+        if deco == 2 {
+            s.push_str("    #[allow(dead_code)]\n");
+        }
+        // display before the alternatives, or after them
+        let display_last = (v.disc as usize + vi) % 3 == 2;
+        if let (Some(c), false) = (v.display, display_last) {
             let _ = writeln!(s, "    #[display({})]", render_char(c));
+        }
+        if deco == 3 {
+            let _ = writeln!(s, "    /// code {}", v.disc);
         }
         if !v.alts.is_empty() {
             // one attribute with all alternatives, or one attribute per group (the declaration means the same)
@@ -550,6 +582,12 @@ fn render_enum(d: &EnumDecl) -> String {
             } else {
                 let _ = writeln!(s, "    #[alt({})]", v.alts.iter().map(|a| a.1.clone()).collect::<Vec<_>>().join(", "));
             }
+        }
+        if let (Some(c), true) = (v.display, display_last) {
+            let _ = writeln!(s, "    #[display({})]", render_char(c));
+        }
+        if deco == 4 {
+            s.push_str("    #[doc = \"documented after its helper attributes\"]\n");
         }
         let _ = writeln!(s, "    {} = {},", v.ident, v.disc_src);
     }
